@@ -165,3 +165,60 @@ extern "C" void harness_order() {
     (void)p.functions[1].release();
     verif_reach();
 }
+
+// C10 (classes in the analyser; every class also has `public constructor() -> T = default;`): class Shape { virtual area() -> int; }  class Polygon extends Shape { }  class Square extends Polygon { [override area() -> int { return 1; }] }
+// function main() -> void { Square s = new Square(); }
+// P0 = permutation of the three class declarations (0..5), P1 = 1 when Square implements area()
+// Square is abstract through the requirement inherited over Polygon exactly when it does not implement area(): verdict must not depend on P0.
+static std::unique_ptr<MethodDeclaration> area(bool body, bool isVirtual, bool isOverride) {
+    auto m = std::make_unique<MethodDeclaration>();
+    m->name = "area";
+    m->isVirtual = isVirtual; m->isOverride = isOverride;
+    m->visibility = Visibility::Public;
+    m->returnType = prim("int");
+    if (body) {
+        m->body = std::make_unique<BlockStatement>();
+        auto rs = std::make_unique<ReturnStatement>();
+        rs->value = lit("1", "int");
+        m->body->statements.push_back(std::move(rs));
+    }
+    m->line = verif_nd_int(); m->column = verif_nd_int();
+    return m;
+}
+extern "C" void harness_class_order_an() {
+    static const int perms[6][3] = {{0, 1, 2}, {0, 2, 1}, {1, 0, 2}, {1, 2, 0}, {2, 0, 1}, {2, 1, 0}};
+    const int* perm = perms[verif_param(0)];
+    const bool implemented = verif_param(1) == 1;
+    std::unique_ptr<ClassDeclaration> cls[3];
+    for (int i = 0; i < 3; ++i) {
+        cls[i] = std::make_unique<ClassDeclaration>(); cls[i]->line = verif_nd_int(); cls[i]->column = verif_nd_int();
+        auto ctor = std::make_unique<ConstructorDeclaration>();    // public constructor() -> T = default;
+        ctor->isDefault = true;
+        ctor->visibility = Visibility::Public;
+        cls[i]->members.push_back(std::move(ctor));
+    }
+    cls[0]->name = "Shape";
+    cls[0]->members.push_back(area(false, true, false));
+    cls[1]->name = "Polygon";
+    cls[1]->baseName = {"Shape"};
+    cls[2]->name = "Square";
+    cls[2]->baseName = {"Polygon"};
+    if (implemented) cls[2]->members.push_back(area(true, false, true));
+    auto ne = std::make_unique<NewExpression>();
+    ne->classType = std::make_unique<NamedType>(std::vector<std::string>{"Square"});
+    ne->line = verif_nd_int(); ne->column = verif_nd_int();
+    auto d = std::make_unique<VariableDeclaration>();
+    d->name = "ss";
+    d->varType = std::make_unique<NamedType>(std::vector<std::string>{"Square"});
+    d->initializer = std::move(ne);
+    std::vector<std::unique_ptr<Statement>> body;
+    body.push_back(std::move(d));
+    Program p;
+    for (int i = 0; i < 3; ++i) p.classes.push_back(std::move(cls[perm[i]]));
+    p.functions.push_back(fn_main(std::move(body)));
+    int r = run_analyser(p);
+    verif_assert(r == (implemented ? 0 : 1), "C10: instantiating Square is a Semantic error exactly when area() stays unimplemented, whatever the order of the class declarations");
+    for (int i = 0; i < 3; ++i) (void)p.classes[i].release();
+    (void)p.functions[0].release();
+    verif_reach();
+}
